@@ -95,7 +95,7 @@ func c09Prop(c c09Case) common.Result {
 	q := cl.Quorum()
 	g := hotstuff.GetGenesis()
 	mk := func(tag string, view hotstuff.View, proposer hotstuff.ID) *hotstuff.Block {
-		return hotstuff.NewBlock(g.Hash(), kit.GenesisQC(), &clientpb.Batch{Commands: []*clientpb.Command{{ClientID: 7, SequenceNumber: 1, Data: []byte(tag)}}}, view, proposer)
+		return kit.NewBlock(g.Hash(), kit.GenesisQC(), &clientpb.Batch{Commands: []*clientpb.Command{{ClientID: 7, SequenceNumber: 1, Data: []byte(tag)}}}, view, proposer)
 	}
 	b1 := mk("b1", 1, 2)
 	other := mk("other", 1, 2)   // an equivocating sibling, known to everybody
@@ -280,6 +280,9 @@ func c09Prop(c c09Case) common.Result {
 				return common.Fail("qc-foreign-signers", "the emitted certificate has signers %s, valid votes came from %v\n%s", hotstuff.IDSetToString(qc.Signature().Participants()), keys(set), desc)
 			}
 			if err := cl.Stacks[len(cl.Stacks)-1].Auth.VerifyQuorumCert(qc); err != nil {
+				if v := cl.Stacks[len(cl.Stacks)-1]; kit.QuirkSig(v.Cfg, v.base, qc.Signature(), target.ToBytes()) {
+					return common.Fail(kit.KnownBLS, "the emitted certificate is rejected at replica %d (%v) although its signature satisfies the verification equation in other arrangements\n%s", v.ID, err, desc)
+				}
 				return common.Fail("qc-does-not-verify", "the emitted certificate (signers %s) does not verify at replica %d: %v\n%s", hotstuff.IDSetToString(qc.Signature().Participants()), cl.Stacks[len(cl.Stacks)-1].ID, err, desc)
 			}
 		}
@@ -306,6 +309,9 @@ func c09Prop(c c09Case) common.Result {
 				common.Get("C09").Inconclusive(fmt.Sprintf("harness: certificate arrived after settle() (goroutines %d, base %d)", runtime.NumGoroutine(), base))
 				return common.OK(false, "", "inconclusive-late-qc")
 			}
+		}
+		if expectQC && nB1 == 0 && nOther == 0 && cl.blsQuirkAmong(sub, S, b1.ToBytes()) {
+			return common.Fail(kit.KnownBLS, "a quorum of valid votes has arrived but no certificate was produced: the collector's scheme rejects one of the valid BLS votes although the signature satisfies the verification equation in other arrangements\n%s", desc)
 		}
 		if expectQC && nB1 == 0 && nOther == 0 {
 			return common.Fail("qc-missing", "a quorum of valid votes for the block has arrived but no certificate was produced\n%s%s", desc, diagnoseC09(c))
@@ -405,4 +411,20 @@ func diagnoseC09(c c09Case) string {
 		log = log[len(log)-16000:]
 	}
 	return fmt.Sprintf("\n--- diagnosis: the same case run again in this process: fails again=%v (%s); goroutines=%d\n--- debug log of that second run (tail):\n%s", r.Err != "", r.Fingerprint, runtime.NumGoroutine(), log)
+}
+
+// blsQuirkAmong: the collector's scheme rejects the (deterministic) BLS signature of one of the given voters over msg although
+// that signature satisfies the verification equation in other arrangements (known finding, see kit/blsquirk.go).
+func (cl *Cluster) blsQuirkAmong(sub *Stack, voters map[int]bool, msg []byte) bool {
+	if cl.Cfg.Crypto != "bls12" {
+		return false
+	}
+	for id := range voters {
+		for _, st := range cl.ByID[hotstuff.ID(id)] {
+			if kit.QuirkSig(sub.Cfg, sub.base, sigOf(st, msg), msg) {
+				return true
+			}
+		}
+	}
+	return false
 }
